@@ -126,6 +126,25 @@ impl Scenario for Nogood {
     }
 
     fn generate(&self, rng: &mut Rng, thorough: bool) -> NogoodCase {
+        if rng.chance(1, if thorough { 2000 } else { 10000 }) {
+            // long searches: 2^n leaves, more than 500 learned nogoods of one arity from n = 10
+            // (the library's nogood store is scanned linearly, so these runs take about a second)
+            let n = if thorough { rng.range(9, 11) } else { 10 } as usize;
+            let names: Vec<String> = (0..n).map(|i| format!("s{i}")).collect();
+            let spec = AdfSpec { names, acs: (0..n).map(refsem::F::Atom).collect(), ac_order: (0..n).collect() };
+            let heu = match rng.below(4) {
+                0 => Heu::Simple,
+                1 => Heu::Rand(rng.bytes32()),
+                2 => Heu::MinModMinPathsMaxVarImp,
+                _ => Heu::Adversary,
+            };
+            let entry = match rng.below(3) {
+                0 => Entry::Iterator,
+                1 => Entry::StableChannel,
+                _ => Entry::TwoValChannel,
+            };
+            return NogoodCase { spec, build: Build::Native, heu, entry, chan: if rng.chance(1, 2) { Chan::Unbounded } else { Chan::Bounded(rng.below(3) as usize) } };
+        }
         let n = if rng.chance(1, 12) { 1 } else { rng.range(2, if thorough { 7 } else { 6 }) } as usize;
         // a share of structured worst cases: every statement supports only itself (2^n models)
         let spec = if rng.chance(1, 25) {
@@ -174,10 +193,18 @@ impl Scenario for Nogood {
     fn execute(&self, case: &NogoodCase, dec: Decisions) -> RunResult {
         crossbeam_channel::sim_reset_ids();
         let mut stats = Stats::default();
-        let sem = Sem::new(&case.spec);
-        let want_stable = sem.stable();
-        let want_two = sem.two_valued_models();
-        let grounded_has_und = sem.grounded().iter().any(|v| *v == V::U);
+        let n = case.spec.n();
+        let self_support = n > 7 && case.spec.acs.iter().enumerate().all(|(i, f)| *f == refsem::F::Atom(i));
+        let (want_stable, want_two, grounded_has_und) = if self_support {
+            // large structured family (every statement supports only itself): the definitional
+            // answers are known in closed form — every assignment is a two-valued model, only
+            // the all-false one is stable — so no 3^n / 4^n brute force is needed
+            let two: Vec<Interp> = (0..(1u32 << n)).map(|w| (0..n).map(|s| if (w >> s) & 1 == 1 { V::T } else { V::F }).collect()).collect();
+            (vec![vec![V::F; n]], two, true)
+        } else {
+            let sem = Sem::new(&case.spec);
+            (sem.stable(), sem.two_valued_models(), sem.grounded().iter().any(|v| *v == V::U))
+        };
 
         let solver_out: Mutex<SolverOut> = Mutex::new(SolverOut::default());
         let consumed: Mutex<Vec<Vec<Term>>> = Mutex::new(Vec::new());
@@ -204,7 +231,11 @@ impl Scenario for Nogood {
                     }
                 }
                 ADV_CALLS.with(|c| c.set(0));
-                adf_bdd::verif::arm(TICK_BUDGET);
+                // the measured maximum is 3*2^n iterations (6*2^n for two consecutive calls); the
+                // large structured family gets ten times that instead of the flat budget because
+                // its iterations are slow (linear scan of thousands of learned nogoods)
+                let n = case.spec.n();
+                adf_bdd::verif::arm(if n > 7 { 30 * (1u64 << n) } else { TICK_BUDGET });
                 let _fin = Fin(solver_out);
                 let mut adf = match build_adf(&case.spec, case.build) {
                     Ok(a) => a,
@@ -271,7 +302,7 @@ impl Scenario for Nogood {
         if with_consumer {
             stats.inc(&format!("channel_{}", match case.chan { Chan::Unbounded => "unbounded".to_string(), Chan::Bounded(k) => format!("bounded{k}") }));
         }
-        if so.ticks * 100 > TICK_BUDGET {
+        if so.ticks * 100 > TICK_BUDGET && case.spec.n() <= 7 {
             stats.inc("runs_above_1pct_of_budget");
         }
 
